@@ -93,3 +93,503 @@ theorem C18.validate_kind_perm (H : Hier) (ls ls' : List Link) (h : ls.Perm ls')
     (validateLinks H ls).kind = (validateLinks H ls').kind := by
   rw [C18.validate_kind_eq, C18.validate_kind_eq, h.any_eq, anyPair_perm h, anyPair_perm (p := conflictBad H) h,
     anyPair_perm (p := rightBad H) h]
+
+/- Full statement of the property's first clause (FALSE for the code as it is - see the witness below):
+     `validateLinks H ls = .ok → Spec.contradictory ls = false`
+   i.e. every link set containing "two different joins between the same pair", "different join types for one ordered
+   pair" or "right joins sharing a left group" is rejected. -/
+
+/-- Partial form: on real sets (no two `__eq__` links) that contain no two links over the same *ordered* pair with the
+same relational join type (the finding's input class), an accepted set contains none of the three contradictions of the
+property, nor a right join whose left group is reused. -/
+theorem C18.validate_vs_property_partial (H : Hier) (ls : List Link)
+    (hset : ∀ i ∈ ls, ∀ j ∈ ls, linkEq H i j = true → i = j)
+    (hno : ∀ i ∈ ls, ∀ j ∈ ls, i.left = j.left → i.right = j.right → i.jt = j.jt →
+      i = j ∨ i.jt.stacking = true ∨ i.left = i.right)
+    (hok : validateLinks H ls = .ok) :
+    Spec.contradictory ls = false ∧ Spec.rightLeftReuse ls = false := by
+  obtain ⟨_, hp⟩ := (C18.validate_iff H ls).mp hok
+  -- two different links of the set are never `__eq__`
+  have hne : ∀ i ∈ ls, ∀ j ∈ ls, Spec.differ i j = true → linkEq H i j = false := by
+    intro i hi j hj hd
+    cases h : linkEq H i j with
+    | false => rfl
+    | true => have := hset i hi j hj h; subst this; rw [differ_self] at hd; cases hd
+  have hdb : ∀ i ∈ ls, ∀ j ∈ ls, Spec.differ i j = true → i.left = j.right → i.right = j.left →
+      i.jt.stacking = true := by
+    intro i hi j hj hd h1 h2
+    cases hs : i.jt.stacking with
+    | true => rfl
+    | false =>
+      have := (hp i hi j hj).1
+      rw [Bool.eq_false_iff] at this
+      exact absurd (doubleBad_iff.mpr ⟨hne i hi j hj hd, h1, h2, hs⟩) this
+  have hdiff_symm : ∀ i j : Link, Spec.differ i j = true → Spec.differ j i = true := by
+    intro i j h; rw [differ_iff] at h ⊢
+    rcases h with h | h | h | h | h
+    · exact Or.inl (Ne.symm h)
+    · exact Or.inr (Or.inl (Ne.symm h))
+    · exact Or.inr (Or.inr (Or.inl (Ne.symm h)))
+    · exact Or.inr (Or.inr (Or.inr (Or.inl (Ne.symm h))))
+    · exact Or.inr (Or.inr (Or.inr (Or.inr (Ne.symm h))))
+  constructor
+  · rw [Bool.eq_false_iff]
+    intro hc
+    simp only [Spec.contradictory, List.any_eq_true, Bool.or_eq_true] at hc
+    obtain ⟨i, hi, j, hj, hc⟩ := hc
+    rcases hc with (hc | hc) | hc
+    · -- two different joins between the same pair
+      obtain ⟨hd, hpair, hst⟩ := twoJoins_iff.mp hc
+      have hrev : i.left = j.right → i.right = j.left → False := by
+        intro h1 h2
+        have s1 := hdb i hi j hj hd h1 h2
+        have s2 := hdb j hj i hi (hdiff_symm i j hd) h2.symm h1.symm
+        exact hst ⟨s1, s2⟩
+      rcases hpair with ⟨h1, h2⟩ | ⟨h1, h2⟩
+      · by_cases hjt : i.jt = j.jt
+        · rcases hno i hi j hj h1 h2 hjt with rfl | hs | hself
+          · rw [differ_self] at hd; cases hd
+          · exact hst ⟨hs, hjt ▸ hs⟩
+          · exact hrev (by rw [hself, h2]) (by rw [← hself, h1])
+        · have := (hp i hi j hj).2.1
+          rw [Bool.eq_false_iff] at this
+          exact this (conflictBad_iff.mpr ⟨hne i hi j hj hd, h1, h2, hjt⟩)
+      · exact hrev h1 h2
+    · -- different join types for one ordered pair
+      obtain ⟨h1, h2, hjt⟩ := typeConflict_iff.mp hc
+      have hd : Spec.differ i j = true := differ_iff.mpr (Or.inl hjt)
+      have := (hp i hi j hj).2.1
+      rw [Bool.eq_false_iff] at this
+      exact this (conflictBad_iff.mpr ⟨hne i hi j hj hd, h1, h2, hjt⟩)
+    · -- right joins sharing a left group
+      obtain ⟨hd, hr, _, hl⟩ := rightShare_iff.mp hc
+      have := (hp i hi j hj).2.2
+      rw [Bool.eq_false_iff] at this
+      exact this (rightBad_iff.mpr ⟨hr, hne i hi j hj hd, Or.inl hl⟩)
+  · rw [Bool.eq_false_iff]
+    intro hc
+    simp only [Spec.rightLeftReuse, List.any_eq_true, Bool.and_eq_true, Bool.or_eq_true, beq_iff_eq] at hc
+    obtain ⟨i, hi, j, hj, ⟨hd, hr⟩, hl⟩ := hc
+    have := (hp i hi j hj).2.2
+    rw [Bool.eq_false_iff] at this
+    exact this (rightBad_iff.mpr ⟨hr, hne i hi j hj hd, hl⟩)
+
+/-- Conversely every rejection is explained: a non-`JoinType` join type, one of the property's contradictions, or the
+documented over-rejection (a right join's left group occurs in another link).  Unconditional. -/
+theorem C18.validate_reject_explained (H : Hier) (ls : List Link) (hinv : ∀ l ∈ ls, l.jt ≠ .invalid)
+    (hrej : validateLinks H ls ≠ .ok) :
+    Spec.contradictory ls = true ∨ Spec.rightLeftReuse ls = true := by
+  have hnb : ¬ ∀ i ∈ ls, ∀ j ∈ ls,
+      doubleBad H i j = false ∧ conflictBad H i j = false ∧ rightBad H i j = false :=
+    fun hb => hrej ((C18.validate_iff H ls).mpr ⟨hinv, hb⟩)
+  simp only [Classical.not_forall] at hnb
+  obtain ⟨i, hi, j, hj, hc⟩ := hnb
+  · have key : doubleBad H i j = true ∨ conflictBad H i j = true ∨ rightBad H i j = true := by
+      cases h1 : doubleBad H i j <;> cases h2 : conflictBad H i j <;> cases h3 : rightBad H i j <;> simp_all
+    rcases key with h | h | h
+    · obtain ⟨hne, h1, h2, hs⟩ := doubleBad_iff.mp h
+      left
+      simp only [Spec.contradictory, List.any_eq_true, Bool.or_eq_true]
+      refine ⟨i, hi, j, hj, Or.inl (Or.inl (twoJoins_iff.mpr ⟨differ_of_not_linkEq hne, Or.inr ⟨h1, h2⟩, ?_⟩))⟩
+      rintro ⟨a, _⟩; rw [hs] at a; cases a
+    · obtain ⟨_, h1, h2, hjt⟩ := conflictBad_iff.mp h
+      left
+      simp only [Spec.contradictory, List.any_eq_true, Bool.or_eq_true]
+      exact ⟨i, hi, j, hj, Or.inl (Or.inr (typeConflict_iff.mpr ⟨h1, h2, hjt⟩))⟩
+    · obtain ⟨hr, hne, hl⟩ := rightBad_iff.mp h
+      right
+      simp only [Spec.rightLeftReuse, List.any_eq_true, Bool.and_eq_true, Bool.or_eq_true, beq_iff_eq]
+      exact ⟨i, hi, j, hj, ⟨differ_of_not_linkEq hne, hr⟩, hl⟩
+
+/-- a tiny universe for witnesses: classes 0,1,2 are direct subclasses of `FeatureGroup`, 3 derives from 0 -/
+def C18.H0 : Hier :=
+  { parent := fun c => if c = 3 then some 0 else none,
+    name := fun c => if c = 0 then "A" else if c = 1 then "B" else if c = 2 then "C" else "A1",
+    indexDecl := fun _ => none }
+
+/-- NEGATION WITNESS (finding F-C18-same-pair-same-type, DESIGN O15): `{inner(A.k1,B.k1), inner(A.k2,B.k2)}` is accepted
+although it contains two different joins between the same pair. -/
+theorem C18.validate_vs_property_witness :
+    let ls : List Link := [⟨.inner, 0, 1, ["k1"], ["k1"], 0⟩, ⟨.inner, 0, 1, ["k2"], ["k2"], 1⟩]
+    validateLinks C18.H0 ls = .ok ∧ Spec.contradictory ls = true := by decide
+
+/-- non-vacuity: the hypotheses of `validate_vs_property_partial` hold for a real 3-link chain, which is accepted -/
+example :
+    let ls : List Link := [⟨.inner, 0, 1, ["k"], ["k"], 0⟩, ⟨.left, 1, 2, ["k"], ["k"], 1⟩, ⟨.append, 2, 0, ["k"], ["k"], 2⟩]
+    validateLinks C18.H0 ls = .ok ∧ Spec.contradictory ls = false ∧ Spec.rightLeftReuse ls = false := by decide
+
+/-- non-vacuity: each of the three coded checks fires on its textbook input -/
+example : validateLinks C18.H0 [⟨.inner, 0, 1, ["k"], ["k"], 0⟩, ⟨.inner, 1, 0, ["k"], ["k"], 1⟩] = .double 0 1 := by decide
+example : validateLinks C18.H0 [⟨.inner, 0, 1, ["k"], ["k"], 0⟩, ⟨.left, 0, 1, ["k"], ["k"], 1⟩] = .conflict 0 1 := by decide
+example : validateLinks C18.H0 [⟨.right, 0, 1, ["k"], ["k"], 0⟩, ⟨.right, 0, 2, ["k"], ["k"], 1⟩] = .rightJoin 0 1 := by decide
+/-- the documented exemption: APPEND in both directions is accepted -/
+example : validateLinks C18.H0 [⟨.append, 0, 1, ["k"], ["k"], 0⟩, ⟨.append, 1, 0, ["k"], ["k"], 1⟩] = .ok := by decide
+
+/-! ## Matching -/
+
+/-- **exact first**: if some link names exactly the two classes, the result is precisely the exact-class links -/
+theorem C18.exact_first (H : Hier) (ls : List Link) (x y : Cls) (h : ∃ l ∈ ls, l.left = x ∧ l.right = y) :
+    findMatchingLinks H ls x y = ls.filter (fun l => l.left == x && l.right == y) := by
+  have : ¬ NoExact ls x y := by
+    obtain ⟨l, hl, hc⟩ := h
+    exact fun hn => hn l hl hc
+  rw [find_of_exact this]; rfl
+
+/-- every returned link belongs to the set and both its sides are the class itself or an ancestor -/
+theorem C18.match_sound (H : Hier) (ls : List Link) (x y : Cls) (l : Link) (h : l ∈ findMatchingLinks H ls x y) :
+    l ∈ ls ∧ H.isSub x l.left = true ∧ H.isSub y l.right = true := by
+  by_cases hn : NoExact ls x y
+  · rw [find_of_noExact hn] at h
+    obtain ⟨hl, _⟩ := mem_select.mp h
+    obtain ⟨hl1, hl2⟩ := List.mem_filter.mp hl
+    simp only [matchesPoly, Bool.and_eq_true] at hl2
+    exact ⟨hl1, hl2.1, hl2.2⟩
+  · rw [find_of_exact hn] at h
+    obtain ⟨hl1, hl2⟩ := List.mem_filter.mp h
+    simp only [matchesExact, Bool.and_eq_true, beq_iff_eq] at hl2
+    refine ⟨hl1, ?_, ?_⟩
+    · rw [hl2.1]; exact isSub_self H x
+    · rw [hl2.2]; exact isSub_self H y
+
+/-- **never a sibling mismatch**: a self link (both sides the same class) is only ever returned for one and the same
+concrete class on both sides - for all hierarchies, unconditionally -/
+theorem C18.never_sibling (H : Hier) (ls : List Link) (x y : Cls) (l : Link)
+    (h : l ∈ findMatchingLinks H ls x y) (hself : l.left = l.right) : x = y := by
+  by_cases hn : NoExact ls x y
+  · rw [find_of_noExact hn] at h
+    obtain ⟨_, d, hd, _⟩ := mem_select.mp h
+    simp only [score, hself, beq_self_eq_true, if_true] at hd
+    split at hd
+    · rename_i hc
+      simp only [Bool.and_eq_true, beq_iff_eq] at hc
+      exact hc.1
+    · cases hd
+  · rw [find_of_exact hn] at h
+    obtain ⟨_, hl2⟩ := List.mem_filter.mp h
+    simp only [matchesExact, Bool.and_eq_true, beq_iff_eq] at hl2
+    rw [← hl2.1, ← hl2.2, hself]
+
+/-- **closest wins** (and nothing else): without an exact link the result is exactly the polymorphically matching
+links that the per-link rule admits with the least distance -/
+theorem C18.closest_wins (H : Hier) (ls : List Link) (x y : Cls) (hn : ∀ l ∈ ls, ¬ (l.left = x ∧ l.right = y))
+    (l : Link) :
+    l ∈ findMatchingLinks H ls x y ↔
+      l ∈ ls ∧ matchesPoly H l x y = true ∧
+        ∃ d, score H x y l = some d ∧
+          ∀ m ∈ ls, matchesPoly H m x y = true → ∀ d', score H x y m = some d' → d ≤ d' := by
+  rw [find_of_noExact hn, mem_select]
+  simp only [List.mem_filter]
+  constructor
+  · rintro ⟨⟨h1, h2⟩, d, hd, hmin⟩
+    exact ⟨h1, h2, d, hd, fun m hm hp d' hd' => hmin m ⟨hm, hp⟩ d' hd'⟩
+  · rintro ⟨h1, h2, d, hd, hmin⟩
+    exact ⟨⟨h1, h2⟩, d, hd, fun m hm d' hd' => hmin m hm.1 hm.2 d' hd'⟩
+
+/-- in the balanced branch the distance that is compared is the common inheritance distance of the two sides -/
+theorem C18.score_balanced (H : Hier) (x y : Cls) (l : Link) (h : Spec.admissible H x y l = true) :
+    score H x y l = some (H.dist x l.left) ∧ H.dist x l.left = H.dist y l.right := by
+  have hp := admissible_poly h
+  simp only [Spec.admissible, Bool.and_eq_true, beq_iff_eq, Bool.or_eq_true, bne_iff_ne] at h
+  obtain ⟨⟨⟨_, _⟩, hd⟩, hs⟩ := h
+  refine ⟨?_, hd⟩
+  simp only [score]
+  by_cases h1 : l.left = l.right
+  · have hxy : x = y := by
+      rcases hs with hs | hs
+      · exact absurd h1 hs
+      · exact hs
+    simp [h1, hxy, ← hd]
+  · have h1' : (l.left == l.right) = false := by simpa using h1
+    simp [h1', hd]
+
+/- Full statement of the matching clause (FALSE for the code as it is - see `asymmetric_witness`):
+     `∀ H ls x y, findMatchingLinks H ls x y = Spec.findLinks H ls x y`
+   ("an exact-class link if one exists, otherwise only links whose sides are ancestors at equal inheritance distance
+   (same concrete class for self links), the closest one winning"). -/
+
+/-- Partial form: whenever no link of the set falls into the asymmetric input class for the pair (link classes
+unrelated, one side exact, the other a proper ancestor) the code returns exactly what the property describes - same
+links, same order - for all hierarchies. -/
+theorem C18.balanced_only_partial (H : Hier) (ls : List Link) (x y : Cls)
+    (h : ∀ l ∈ ls, asymmetricAdmitted H x y l = false) :
+    findMatchingLinks H ls x y = Spec.findLinks H ls x y := by
+  by_cases hn : NoExact ls x y
+  · have hex : ls.filter (fun l => l.left == x && l.right == y) = [] := by
+      apply List.filter_eq_nil_iff.mpr
+      intro l hl
+      simpa using hn l hl
+    rw [find_of_noExact hn]
+    simp only [Spec.findLinks, hex, List.isEmpty_nil, Bool.not_true, Bool.false_eq_true, if_false]
+    -- per link: score = documented rule
+    have hsc : ∀ l ∈ ls, matchesPoly H l x y = true →
+        score H x y l = if Spec.admissible H x y l then some (H.dist x l.left) else none :=
+      fun l hl hp => score_eq hp (h l hl)
+    -- the candidate distances on both sides
+    have hmemc : ∀ m, m ∈ ls.filter (Spec.admissible H x y) ↔ m ∈ ls ∧ Spec.admissible H x y m = true := by
+      intro m; exact List.mem_filter
+    unfold selectMostSpecific
+    simp only
+    cases hmin : minOf (((ls.filter (fun l => matchesPoly H l x y)).filterMap
+        (fun l => (score H x y l).map (fun d => (l, d)))).map (·.2)) with
+    | none =>
+      -- no candidate on the code side, hence none on the documented side
+      have hnil := minOf_eq_none.mp hmin
+      have : ls.filter (Spec.admissible H x y) = [] := by
+        apply List.filter_eq_nil_iff.mpr
+        intro m hm hadm
+        have hp := admissible_poly hadm
+        have hs := hsc m hm hp
+        rw [hadm] at hs
+        have : H.dist x m.left ∈ ((ls.filter (fun l => matchesPoly H l x y)).filterMap
+            (fun l => (score H x y l).map (fun d => (l, d)))).map (·.2) := by
+          simp only [List.mem_map, List.mem_filterMap, Option.map_eq_some_iff, List.mem_filter]
+          exact ⟨(m, H.dist x m.left), ⟨m, ⟨hm, hp⟩, H.dist x m.left, by simpa using hs, rfl⟩, rfl⟩
+        rw [hnil] at this; cases this
+      simp [this]
+    | some m0 =>
+      obtain ⟨hm1, hm2⟩ := minOf_spec hmin
+      dsimp only
+      rw [select_eq_filter, List.filter_filter, List.filter_filter]
+      apply List.filter_congr
+      intro l hl
+      -- distances of candidates
+      have hds : ∀ d', d' ∈ ((ls.filter (fun l => matchesPoly H l x y)).filterMap
+            (fun l => (score H x y l).map (fun d => (l, d)))).map (·.2) ↔
+          ∃ m ∈ ls, Spec.admissible H x y m = true ∧ H.dist x m.left = d' := by
+        intro d'
+        simp only [List.mem_map, List.mem_filterMap, Option.map_eq_some_iff, List.mem_filter]
+        constructor
+        · rintro ⟨p, ⟨m, ⟨hm, hp⟩, d, hd, rfl⟩, rfl⟩
+          have hs := hsc m hm hp
+          rw [hd] at hs
+          by_cases hadm : Spec.admissible H x y m = true
+          · rw [hadm] at hs; simp at hs; exact ⟨m, hm, hadm, hs.symm⟩
+          · simp [hadm] at hs
+        · rintro ⟨m, hm, hadm, rfl⟩
+          have hp := admissible_poly hadm
+          have hs := hsc m hm hp
+          rw [hadm] at hs
+          exact ⟨(m, H.dist x m.left), ⟨m, ⟨hm, hp⟩, H.dist x m.left, by simpa using hs, rfl⟩, rfl⟩
+      by_cases hadm : Spec.admissible H x y l = true
+      · have hp := admissible_poly hadm
+        have hs := hsc l hl hp
+        rw [hadm] at hs
+        simp only [if_true] at hs
+        simp only [hs, hp, hadm, Bool.and_true]
+        rw [Bool.eq_iff_iff]
+        simp only [beq_iff_eq, Option.some.injEq, List.all_eq_true, decide_eq_true_eq, hmemc]
+        constructor
+        · intro he m hm
+          rw [he]; exact hm2 _ ((hds _).mpr ⟨m, hm.1, hm.2, rfl⟩)
+        · intro hall
+          obtain ⟨m, hm, hadm', hmd⟩ := (hds m0).mp hm1
+          have h1 : H.dist x l.left ≤ m0 := hmd ▸ hall m ⟨hm, hadm'⟩
+          have h2 : m0 ≤ H.dist x l.left := hm2 _ ((hds _).mpr ⟨l, hl, hadm, rfl⟩)
+          exact Nat.le_antisymm h1 h2
+      · have hadm' : Spec.admissible H x y l = false := by simpa using hadm
+        by_cases hp : matchesPoly H l x y = true
+        · have hs := hsc l hl hp
+          rw [hadm'] at hs
+          simp [hs, hadm']
+        · have hp' : matchesPoly H l x y = false := by simpa using hp
+          simp [hp', hadm']
+  · rw [find_of_exact hn]
+    have : (ls.filter (fun l => l.left == x && l.right == y)).isEmpty = false := by
+      rw [Bool.eq_false_iff]
+      intro he
+      apply hn
+      intro l hl hc
+      have : l ∈ ls.filter (fun l => l.left == x && l.right == y) := by
+        simp [List.mem_filter, hl, hc.1, hc.2]
+      rw [List.isEmpty_iff.mp he] at this
+      cases this
+    simp only [Spec.findLinks, this, Bool.not_false, if_true]
+    rfl
+
+/-- NEGATION WITNESS (finding F-C18-asymmetric): `class A; class A1(A); class C`; the link `(A, C)` is returned for the
+pair `(A1, C)` (distances 1 and 0) although the documented rule admits only equal distances. -/
+theorem C18.asymmetric_witness :
+    let ls : List Link := [⟨.inner, 0, 2, ["k"], ["k"], 7⟩]
+    findMatchingLinks C18.H0 ls 3 2 = ls ∧ Spec.findLinks C18.H0 ls 3 2 = [] ∧
+      asymmetricAdmitted C18.H0 3 2 ⟨.inner, 0, 2, ["k"], ["k"], 7⟩ = true := by decide
+
+/-- the asymmetric rule can also add a link next to a balanced one that the property alone would select -/
+example :
+    let H : Hier := { parent := fun c => if c = 1 then some 0 else if c = 3 then some 2 else none,
+                      name := fun c => toString c, indexDecl := fun _ => none }
+    let ls : List Link := [⟨.inner, 0, 2, ["k"], ["k"], 0⟩, ⟨.inner, 1, 2, ["k"], ["k"], 1⟩]
+    (findMatchingLinks H ls 1 3).map (·.uid) = [0, 1] ∧ (Spec.findLinks H ls 1 3).map (·.uid) = [0] := by decide
+
+/-- the set of returned links does not depend on the iteration order of the link set -/
+theorem C18.find_perm (H : Hier) (ls ls' : List Link) (x y : Cls) (hp : ls.Perm ls') :
+    (findMatchingLinks H ls x y).Perm (findMatchingLinks H ls' x y) := by
+  by_cases hn : NoExact ls x y
+  · have hn' : NoExact ls' x y := fun l hl => hn l (hp.mem_iff.mpr hl)
+    rw [find_of_noExact hn, find_of_noExact hn']
+    have hf := hp.filter (fun l => matchesPoly H l x y)
+    have hld := hf.filterMap (fun l => (score H x y l).map (fun d => (l, d)))
+    unfold selectMostSpecific
+    simp only
+    rw [minOf_perm (hld.map (·.2))]
+    cases minOf (((ls'.filter (fun l => matchesPoly H l x y)).filterMap
+        (fun l => (score H x y l).map (fun d => (l, d)))).map (·.2)) with
+    | none => exact List.Perm.refl _
+    | some m => exact ((hld.filter _).map _)
+  · have hn' : ¬ NoExact ls' x y := fun h => hn (fun l hl => h l (hp.mem_iff.mp hl))
+    rw [find_of_exact hn, find_of_exact hn']
+    exact hp.filter _
+
+/-- non-vacuity: sibling classes 1,2 under 0 - the base self link serves (1,1) and (2,2) but not (1,2);
+an exact link beats the base link; in a chain 0 <- 1 <- 3 the closer of two balanced links wins -/
+example :
+    let H : Hier := { parent := fun c => if c = 1 ∨ c = 2 then some 0 else if c = 3 then some 1 else none,
+                      name := fun c => toString c, indexDecl := fun _ => none }
+    let base : Link := ⟨.inner, 0, 0, ["k"], ["k"], 0⟩
+    let mid : Link := ⟨.left, 1, 1, ["k"], ["k"], 1⟩
+    findMatchingLinks H [base] 1 1 = [base] ∧ findMatchingLinks H [base] 2 2 = [base] ∧
+    findMatchingLinks H [base] 1 2 = [] ∧ findMatchingLinks H [base, mid] 1 1 = [mid] ∧
+    findMatchingLinks H [base, mid] 3 3 = [mid] ∧ findMatchingLinks H [base, mid] 2 2 = [base] := by decide
+
+/-! ## Where validation is applied -/
+
+/-- links given to the API are validated before anything is planned: what the engine plans with was accepted -/
+theorem C18.engine_validates_api (H : Hier) (api : List Link) (out : List Link)
+    (h : engineLinks H (some api) [] = .ok out) : out = api ∧ validateLinks H api = .ok := by
+  unfold engineLinks validateLinksOpt at h
+  split at h
+  · rename_i hv
+    simp at h
+    exact ⟨h.symm, hv⟩
+  · cases h
+
+/- Full statement (FALSE for the code as it is): `engineLinks H api fl = .ok out → Spec.contradictory out = false`
+   (under the hypotheses of `validate_vs_property_partial`). -/
+
+/-- NEGATION WITNESS (finding F-C18-feature-links-unvalidated): the reversed pair `{inner(A,B), inner(B,A)}` attached to
+input features reaches the planner, although `validate_links` rejects the very same set. -/
+theorem C18.feature_links_unvalidated_witness :
+    let ls : List Link := [⟨.inner, 0, 1, ["k"], ["k"], 0⟩, ⟨.inner, 1, 0, ["k"], ["k"], 1⟩]
+    (engineLinks C18.H0 none ls).toOption = some ls ∧ Spec.contradictory ls = true ∧ validateLinks C18.H0 ls = .double 0 1 := by
+  decide
+
+/-! ## MRO facts the matching rules rest on -/
+
+/-- for every well-formed parent map (bases created before subclasses) `issubclass` as modelled through the derived MRO
+is exactly "same class or ancestor" -/
+theorem C18.isSub_iff_ancestor (H : Hier) (hwf : H.WF) (c p : Cls) : H.isSub c p = true ↔ Anc H.parent c p := by
+  unfold Hier.isSub Hier.mro
+  rw [List.contains_iff_mem]
+  exact mem_mroAux_iff H.parent hwf c c (Nat.le_refl c) p
+
+/-- distance 0 means the class itself (so "exact" and "distance 0 on both sides" coincide) -/
+theorem C18.dist_zero_iff (H : Hier) (c p : Cls) : H.dist c p = 0 ↔ c = p := by
+  obtain ⟨t, ht⟩ := mro_head H c
+  unfold Hier.dist
+  rw [ht]
+  by_cases h : c = p
+  · subst h; simp [List.idxOf?, List.findIdx?_cons]
+  · have hne : (c == p) = false := by simpa using h
+    simp only [List.idxOf?, List.findIdx?_cons, hne, h, iff_false]
+    cases List.findIdx? (fun x => x == p) t with
+    | none => simp
+    | some i => simp
+
+/-! ## Index support -/
+
+/-- `Index.is_a_part_of_` is the prefix relation on column tuples - all lengths, all alphabets -/
+theorem C18.isPartOf_iff_prefix {α : Type} [DecidableEq α] (a b : List α) : isPartOf a b = true ↔ a <+: b := by
+  unfold isPartOf
+  by_cases h : a.length > b.length
+  · simp only [h, if_true, Bool.false_eq_true, false_iff]
+    intro hp
+    have := hp.length_le
+    omega
+  · simp only [h, if_false]
+    have := isPartOfLoop_iff a b 0 (Nat.zero_le _) (by omega)
+    simpa using this
+
+/-- `supports_index`: `None` exactly when the group declares no index columns; otherwise `True` exactly when the index is a
+prefix of one of the supported indexes -/
+theorem C18.supportsIndex_iff {α : Type} [DecidableEq α] (cols : Option (List (List α))) (i : List α) :
+    (supportsIndexOf cols i = none ↔ cols = none) ∧
+    ∀ sup, cols = some sup →
+      (supportsIndexOf cols i = some true ↔ ∃ s ∈ sup, i <+: s) ∧
+      (supportsIndexOf cols i = some false ↔ ∀ s ∈ sup, ¬ i <+: s) := by
+  constructor
+  · cases cols <;> simp [supportsIndexOf]
+  · intro sup h
+    subst h
+    constructor
+    · simp only [supportsIndexOf, Option.some.injEq, List.any_eq_true, C18.isPartOf_iff_prefix]
+    · simp only [supportsIndexOf, Option.some.injEq]
+      rw [Bool.eq_false_iff]
+      simp only [ne_eq, List.any_eq_true, C18.isPartOf_iff_prefix, not_exists, not_and]
+
+/-- `index_columns` is inherited: the nearest class in the MRO that overrides it decides -/
+theorem C18.indexColumns_nearest (H : Hier) (c a : Cls) (pre post : List Cls) (r : Option (List Index))
+    (hm : H.mro c = pre ++ a :: post) (hpre : ∀ b ∈ pre, H.indexDecl b = none) (ha : H.indexDecl a = some r) :
+    H.indexColumns c = r := by
+  unfold Hier.indexColumns
+  rw [hm, List.findSome?_append]
+  have : pre.findSome? H.indexDecl = none := List.findSome?_eq_none_iff.mpr hpre
+  simp [this, ha]
+
+/-- non-vacuity for the index clause -/
+example : isPartOf ["a"] ["a", "b"] = true ∧ isPartOf ["b"] ["a", "b"] = false ∧ isPartOf ([] : List String) ["a"] = true ∧
+    isPartOf ["a", "b", "c"] ["a", "b"] = false ∧
+    supportsIndexOf (some [["a", "b"], ["c"]]) ["a"] = some true ∧ supportsIndexOf (some [["a", "b"]]) ["b"] = some false ∧
+    supportsIndexOf (none : Option (List (List String))) ["b"] = none := by decide
+
+/-! ## Set semantics of `Link.__eq__` and the second-line check after matching -/
+
+/-- a Python set built from links keeps one representative of every `__eq__` class (equality on class *names*), no two
+survivors are equal, and nothing new appears -/
+theorem C18.mkSet_spec (H : Hier) (ls : List Link) :
+    (∀ m ∈ mkSet H ls, m ∈ ls) ∧ (∀ l ∈ ls, ∃ m ∈ mkSet H ls, linkEq H m l = true) ∧
+    (mkSet H ls).Pairwise (fun a b => linkEq H a b = false) := by
+  induction ls with
+  | nil => simp [mkSet]
+  | cons a as ih =>
+    obtain ⟨ih1, ih2, ih3⟩ := ih
+    simp only [mkSet]
+    refine ⟨?_, ?_, ?_⟩
+    · intro m hm
+      rcases List.mem_cons.mp hm with rfl | hm
+      · exact List.mem_cons_self
+      · exact List.mem_cons_of_mem _ (ih1 m (List.mem_filter.mp hm).1)
+    · intro l hl
+      rcases List.mem_cons.mp hl with rfl | hl
+      · exact ⟨l, List.mem_cons_self, linkEq_refl H l⟩
+      · obtain ⟨m, hm, hml⟩ := ih2 l hl
+        by_cases ham : linkEq H a m = true
+        · exact ⟨a, List.mem_cons_self, linkEq_trans ham hml⟩
+        · refine ⟨m, List.mem_cons_of_mem _ (List.mem_filter.mpr ⟨hm, ?_⟩), hml⟩
+          simpa using ham
+    · rw [List.pairwise_cons]
+      refine ⟨?_, ih3.sublist List.filter_sublist⟩
+      intro m hm
+      have := (List.mem_filter.mp hm).2
+      simpa using this
+
+/-- names, not classes, decide equality: two links over different classes that happen to share `__name__` collapse into
+one set element (modelled as the code does it; outside the property's clauses, reported as an observation) -/
+example :
+    let H : Hier := { parent := fun _ => none, name := fun c => if c = 2 then "B" else "A", indexDecl := fun _ => none }
+    mkSet H [⟨.inner, 0, 2, ["k"], ["k"], 0⟩, ⟨.inner, 1, 2, ["k"], ["k"], 1⟩] = [⟨.inner, 0, 2, ["k"], ["k"], 0⟩] := by
+  decide
+
+/-- `ResolveLinkValidator.validate_no_conflicting_join_types` raises exactly when two links that are actually used name
+the same ordered pair of classes with different join types - whatever the dict order -/
+theorem C18.resolve_conflict_iff (used : List Link) :
+    resolveConflict used = true ↔
+      ∃ a ∈ used, ∃ b ∈ used, a.left = b.left ∧ a.right = b.right ∧ a.jt ≠ b.jt := by
+  unfold resolveConflict
+  rw [resolveConflictLoop_iff]
+  constructor
+  · rintro (⟨l, _, jt, h1, _⟩ | h)
+    · simp [look] at h1
+    · exact h
+  · intro h; exact Or.inr h
+
+example : resolveConflict [⟨.inner, 0, 1, ["k"], ["k"], 0⟩, ⟨.inner, 1, 2, ["k"], ["k"], 1⟩, ⟨.left, 0, 1, ["j"], ["j"], 2⟩] = true ∧
+    resolveConflict [⟨.inner, 0, 1, ["k"], ["k"], 0⟩, ⟨.inner, 0, 1, ["j"], ["j"], 2⟩] = false := by decide
